@@ -67,6 +67,26 @@ CHECKS = {
         text="Generated and enumerated trees of matrix_add / matrix_mul / hadamard_product / transpose / conjugate / trace over identity, zero, diagonal and dense leaves are evaluated densely in Python on both sides; definite predicate answers must agree with the concrete matrix (indeterminate is always allowed). Exploration.",
         note="Value preservation is judged for symbol-free trees; symbolic dimensions only for size logic.",
         variants=["main"]),
+    "C32": dict(
+        engine="hy", technique="property-based testing: exhaustive bounded boxes of argument tuples for every listed number-theoretic function against brute-force Python-int definitions, plus generated multi-limb arguments judged by defining identities (CRT over constructed factorisations); sympy consulted as referee on mismatches",
+        text="Every function named in the statement is bound and judged: exhaustively on bounded boxes by brute force, and on generated large arguments by the defining identities. Conventions the header leaves open are not judged; probabilistic factor methods only on claims of success. Exhaustive on the boxes, exploration beyond.",
+        note="Zero divisors/moduli are outside the functions' domain and declined. Trusts Python ints and, as tie-breaker only, sympy.ntheory.",
+        variants=["main"]),
+    "C33": dict(
+        engine="hy", technique="property-based testing (stateful, model-based): generated histories of generate_primes / iterator creation, next_prime bursts and destruction / clear / set_clear / set_sieve_size with limits placed around cache and segment boundaries, each history one driver program, judged against a plain Python sieve",
+        text="Every generate_primes result must be exactly the primes up to the limit in increasing order and every iterator must yield the prime sequence without gaps or repeats and then a value above its limit, after any generated history of the process-global sieve; ASan watches the segment buffer. Exploration.",
+        note="The driver resets the sieve at the start of each program; a small Python cache model only chooses interesting limits, the oracle is an independent sieve.",
+        variants=["main"]),
+    "C38": dict(
+        engine="hy", technique="property-based testing: generated grids of 1-8 distinct rational (and symbolic) points, centres and derivative orders; exact moment conditions in Fractions as oracle",
+        text="For each generated grid, centre and max order, the returned weights applied to every monomial of degree below the grid size must give exactly the k-th derivative at the centre (Fractions); symbolic grids are evaluated exactly at rational assignments. Exploration.",
+        note="The weight-vector layout is read from finitediff.cpp.",
+        variants=["main"]),
+    "C46": dict(
+        engine="hy", technique="property-based testing: exhaustive small integer matrices (1x2, 1x3, 2x3) and generated 1-3 x 2-5 matrices; brute-force Hilbert basis by complete enumeration of a box proven to contain every minimal solution",
+        text="homogeneous_lde's result must equal, as a set with each element once, the set of minimal non-zero non-negative solutions found by an independent complete enumeration. Exhaustive on the small classes, exploration beyond.",
+        note="The enumeration bound argument is written out in pbt/hilbert.py; systems on which the library needs longer than the driver timeout are skipped as slow.",
+        variants=["main"]),
 }
 
 NOT_APPLICABLE = {}
